@@ -91,3 +91,33 @@ Fixpoint cm_at (x : cm) (p : path) : option cm :=
   | [] => Some x
   | a :: p' => match cm_get a x with Some y => cm_at y p' | None => None end
   end.
+
+(** ** Denotation of a selection on a path of string addresses (independent of
+    the [match] machinery): the Boolean-algebra reading of C16. *)
+Fixpoint is_prefix (q l : list nat) : bool :=
+  match q, l with
+  | [], _ => true
+  | x :: q', y :: l' => Nat.eqb y x && is_prefix q' l'
+  | _ :: _, [] => false
+  end.
+
+Fixpoint sem (s : sel) (p : list nat) {struct s} : bool :=
+  match s with
+  | SAll => true
+  | SNone => false
+  | SStr n => match p with m :: _ => Nat.eqb m n | [] => false end
+  | STup q => match q with [] => false | _ => is_prefix q p end
+  | SDict d =>
+      match p with
+      | [] => false
+      | a :: p' =>
+          (fix go (d : list (nat * sel)) : bool :=
+             match d with
+             | [] => false
+             | (m, s') :: d' => if Nat.eqb a m then sem s' p' else go d'
+             end) d
+      end
+  | SCompl s1 => negb (sem s1 p)
+  | SIn s1 s2 => sem s1 p && sem s2 p
+  | SOr s1 s2 => sem s1 p || sem s2 p
+  end.
